@@ -84,8 +84,11 @@ def run(tier, seed, replay=None):
         recs = traces.get(sc['name']) or []
         told_mems = {}
         prev_cfg = sc['config']
+        prev_rec = None
+        after_rejected = False
         for rec, (cfg, _) in zip(recs, configs_along(sc, recs)):
             if rec['seq'] < 0:
+                prev_rec = rec
                 continue
             ev = sc['events'][rec['seq']]
             # a request is judged by the configuration in force while it ran; a Reconfigure by the new one if accepted
@@ -104,9 +107,23 @@ def run(tier, seed, replay=None):
             # calls: no cpuset / changed mems written to an opted-out container's cache entry either
             cache = {c['id']: c for c in rec['cache']}
             for call in rec.get('calls') or []:
-                if call[0] == 'SetCpusetCpus' and call[1] in cpu and cpu[call[1]] != 'pinCPU-off' and cache.get(call[1], {}).get('state') in ('created', 'running'):
+                # (writing back the value the cache entry already holds -- the UpdateContainer handler does that for a request
+                #  with identical resources -- touches nothing)
+                before = {c['id']: c for c in (prev_rec['cache'] if prev_rec else [])}
+                same = call[0] == 'SetCpusetCpus' and call[1] in before and fsoracle.fmt_set(fsoracle.parse_set(call[2])) == before[call[1]]['cpus']
+                if call[0] == 'SetCpusetCpus' and not same and call[1] in cpu and cpu[call[1]] != 'pinCPU-off' and cache.get(call[1], {}).get('state') in ('created', 'running'):
                     fs.append(F('C12', 'cpu-preserved-never-told-cpus', 'cpuset-written-to-cpu-opt-out:' + cpu[call[1]],
                                 '%s: SetCpusetCpus(%r) on CPU-opted-out container %s' % (rec['op'], call[2], call[1]), rec['seq']))
+            # a rejected configuration update is tried before it is reverted: what the attempt wrote to the containers
+            # (under the rejected configuration's pinning switches) stays pending and reaches the runtime with the next
+            # request that flushes (known findings K9/K5). Configuration-level opt-outs are judged under that name until
+            # the next request that re-applies every allocation.
+            if rec['op'] == 'Reconfigure' and rec['reply']['class'] != 'ok':
+                after_rejected = True
+            elif rec['op'] in ('Reconfigure', 'Synchronize', 'Restart') and rec['reply']['class'] == 'ok':
+                after_rejected = False
+            if after_rejected:
+                fs = [dict(f, sig=f['sig'] + ':after-rejected-update') if f['sig'].endswith(('pinCPU-off', 'pinMemory-off', 'balloon-type-pinMemory-off')) else f for f in fs]
             for f in fs:
                 nfind[(f['prop'], f['sig'])] += 1
                 chk.violation(f['sig'], 'C12 [%s] history %s event %d: %s' % (f['clause'], sc['name'], f['seq'], f['what']),
@@ -139,6 +156,7 @@ def run(tier, seed, replay=None):
                             bln_cases.append('({| bi_pin_cpu := %s; bi_pin_mem := %s; bi_type_pin_mem := %s; bi_mem_preserve := %s |}, %s, %s)' % (
                                 b(cfg.get('pinCPU', False)), b(cfg.get('pinMemory', False)), tp, b(c.get('preserve_mem')), b(wc), b(wm)))
             prev_cfg = cfg
+            prev_rec = rec
     p = os.path.join(chk.work, 'cases_optout.v')
     with open(p, 'w') as f:
         f.write('From Coq Require Import List. Import ListNotations.\nFrom NV Require Import Optout_Model.\n')
